@@ -1,4 +1,5 @@
 //! hexv — runtime monitors for the hexane column library (C34, C35).
+#![allow(dead_code)]
 mod c34;
 mod c35;
 mod mutate;
